@@ -183,6 +183,50 @@ pub fn spec(args: &[String]) -> i32 {
         }
         if case < 4 { st.sample(format!("from={from:?} into={into:?} rules={rules:?} words={words:?}")); }
     }
+    // ---------- romanisers that name stress ----------
+    // `a:[+stress] > á` applies in primary AND secondary stressed syllables, `[-stress]` in unstressed ones, `[±secstress]` looks at
+    // secondary stress only (the rule language's meaning of the two features).  No rules: the printed word is the typed word rewritten.
+    // Own generator; words over plain graphemes, no long segments.
+    let mut g6 = Gen::new(seed ^ 0xC15_6);
+    for _ in 0..(if thorough { 40000 } else { 4000 }) {
+        let mut t = String::new();
+        for i in 0..1 + g6.rng.below(4) {
+            let mark = ["", "ˈ", "ˌ", ""][g6.rng.below(4)];
+            if mark.is_empty() { if i > 0 { t.push('.'); } } else { t.push_str(mark); }
+            t.push_str(["ka", "ti", "mu", "sa", "pi", "tam", "a", "us"][g6.rng.below(8)]);
+            if g6.rng.chance(1, 5) { t.push_str(["5", "31", "2"][g6.rng.below(3)]); }
+        }
+        let Out::Ok(w) = guarded(|| verif::parse_word(&t, &[])) else { continue };
+        let mut roms: Vec<(SegS, (Option<bool>, Option<bool>), bool, String, String)> = Vec::new();
+        for _ in 0..1 + g6.rng.below(2) {
+            let ipa = ["a", "i", "u", "t", "k", "s", "m"][g6.rng.below(7)];
+            let Some(sg) = seg_of(ipa) else { continue };
+            let st2 = [(Some(true), None), (Some(false), None), (None, Some(true)), (None, Some(false)), (Some(true), Some(false)), (Some(true), Some(true))][g6.rng.below(6)];
+            let mods: Vec<String> = [(st2.0, "stress"), (st2.1, "secstress")].iter().filter_map(|(v, n)| v.map(|b| format!("{}{n}", if b { "+" } else { "-" }))).collect();
+            let f = FRESH[g6.rng.below(5)].to_string(); let plus = g6.rng.chance(1, 3);
+            roms.push((sg, st2, plus, f.clone(), format!("{ipa}:[{}] > {}{f}", mods.join(", "), if plus { "+" } else { "" })));
+        }
+        if roms.is_empty() { continue }
+        let from: Vec<String> = roms.iter().map(|r| r.4.clone()).collect();
+        let Out::Ok(a) = guarded(|| asca::run(&[], &[t.clone()], &[], &from)) else { st.inc("c15.stress_romaniser.not_ok"); continue };
+        st.inc("c15.cases"); st.inc("c15.stress_romaniser");
+        let ok = |m: (Option<bool>, Option<bool>), stress: u8| -> bool {
+            (match m.0 { Some(true) => stress != 0, Some(false) => stress == 0, None => true }) && (match m.1 { Some(true) => stress == 2, Some(false) => stress != 2, None => true }) };
+        let mut want = String::new();
+        for (i, sy) in w.sylls.iter().enumerate() {
+            match sy.stress { 1 => want.push('ˈ'), 2 => want.push('ˌ'), _ => if i > 0 { want.push('.') } }
+            for sg in &sy.segs {
+                match roms.iter().find(|r| r.0 == *sg && ok(r.1, sy.stress as u8)) {
+                    Some(r) if r.2 => { want.push_str(&render_seg(*sg)); want.push_str(&r.3) }
+                    Some(r) => want.push_str(&r.3),
+                    None => want.push_str(&render_seg(*sg)),
+                }
+            }
+            if sy.tone != 0 { want.push_str(&sy.tone.to_string()); }
+        }
+        if a.get(0) != Some(&want) { println!("FINDING c15-romanise-differs:stress-romaniser from={from:?} word={t:?} printed={:?} reference={want:?}", a.get(0)); }
+        else if a.get(0) != Some(&t) { st.inc("c15.nontrivial"); }
+    }
     st.print();
     0
 }
